@@ -299,9 +299,8 @@ func VerifLoadDataset(dataset *VerifDataset, scratch string) (*VerifInstance, er
 			peer.lastError.Set(backend.Error)
 			peer.data.Store(nil)
 		case "broken":
-			peer.peerState.Set(PeerStatusBroken)
-			peer.lastError.Set(backend.Error)
-			peer.data.Store(nil)
+			// through lmd's own transition: the data set of a synchronised backend has to go with it
+			peer.setBroken(strings.TrimPrefix(backend.Error, "broken: "))
 		default:
 			return nil, fmt.Errorf("unknown backend state %s", backend.State)
 		}
